@@ -194,17 +194,22 @@ OpDropRange(st, b) ==
 \* Ingestion::new allocates the writer's table id; finish(): rotate, flush(0), then the
 \* global seqno g = seq.next() stamps the ingested table and the version that adds it
 \*   batch: Seq of [k, t, v] in strictly ascending key order, non-empty
-OpIngest(st, batch) ==
+\* (BlobIngestion: ingested values that reach the threshold are separated, while the pending
+\* memtables are flushed through the index tree's own flush, i.e. without separation)
+OpIngestSep(st, batch, sep) ==
     LET id  == st.tblId
         s0  == [st EXCEPT !.tblId = id + 1]
         s1  == OpFlush(OpRotate(s0), 0)
         g   == s1.seq
         sv  == Latest(s1)
-        ents == [j \in 1..Len(batch) |-> [k |-> batch[j].k, s |-> 0, t |-> batch[j].t, v |-> batch[j].v]]
+        ents == Separate(sep, [j \in 1..Len(batch) |->
+                                  [k |-> batch[j].k, s |-> 0, t |-> batch[j].t, v |-> batch[j].v]])
         T2  == s1.tbl @@ (id :> [e |-> ents, g |-> g])
         nsv == [sv EXCEPT !.lv = WithNewL0Run(sv.lv, <<id>>, T2)]
         s2  == [s1 EXCEPT !.tbl = T2, !.seq = g + 1]
     IN Collect(Install(s2, nsv, g))
+
+OpIngest(st, batch) == OpIngestSep(st, batch, NoSep)
 
 OpOpenSnap(st)       == [st EXCEPT !.snaps = @ \cup {st.vis}]
 OpReleaseSnap(st, S) == [st EXCEPT !.snaps = @ \ {S}]
